@@ -63,7 +63,7 @@ def bias_text(rng, cv, kind, val):
                 % (n, fnum(rng.uniform(0.2, 2.0)), fnum(rng.uniform(1.0, 3.0))))
     if kind == "opes":
         return ("opes_metad {\n  colvars %s\n  newHillFrequency 2\n  barrier %s\n  gaussianSigma %s\n  fixedGaussianSigma on\n}\n"
-                % (n, fnum(rng.uniform(12, 20) if rng.random() < 0.75 else rng.uniform(3, 6)), fnum(max(0.1, abs(val[0]) * 0.1))))
+                % (n, fnum(rng.uniform(3, 20)), fnum(max(0.1, abs(val[0]) * 0.1))))
     if kind == "histrest":
         nb = 6
         lo = min(val) - 1.0
@@ -126,6 +126,8 @@ def scenario_pass2(rng, case, val):
             s += corpus.pos_line(jitter(rng, pos, 0.15)) + "\nstep\n"
         s += corpus.pos_line(pos) + "\n"
         s += "fdsweep %s cont\n" % fnum(H)
+        if case["bias"] == "opes":
+            s += "savestr\n"
     elif case["bias"] == "abmd":
         # ratchet: visit the geometry with the larger value first (the reference follows it), then
         # sweep at the geometry with the smaller value, where the reference is frozen behind it
@@ -139,38 +141,40 @@ def scenario_pass2(rng, case, val):
     return s
 
 
-def opes_shift_class(case, ev, f0, fscale):
-    """OPES kernels are truncated and shifted, G(r) = h (exp(-r^2/2) - exp(-rc^2/2)) for r < rc, but the code (as PLUMED does)
-    uses -G(r) r/sigma as their derivative instead of -h exp(-r^2/2) r/sigma.  Force and energy gradient then differ by one
-    common factor rho on every coordinate, rho - 1 of the order of exp(-rc^2/2) = exp(-barrier / ((1 - kT/barrier) kT)).
-    'known' if that pattern (and nothing else) explains the mismatch, 'cancel' if the factor is common but larger (kernel
-    forces cancelling), None otherwise."""
-    m = re.search(r"barrier (\S+)", case.get("bias_text", ""))
-    if not m:
-        return None
-    barrier = float(m.group(1))
-    kt = 0.001987191 * 300.0
-    vc = math.exp(-barrier / ((1.0 - kt / barrier) * kt))
-    if vc < 1e-7:
-        return None
-    rows = []
-    for row in ev["d"]:
-        k, d = row[0], row[1]
-        ep, em, ep2, em2 = [fl(x) for x in row[2:6]]
-        gh = (ep - em) / (2 * H)
-        gh2 = (ep2 - em2) / H
-        g = (4.0 * gh2 - gh) / 3.0
-        F = fl(f0[k][d])
-        if abs(gh2 - gh) > 1e-4 * fscale:
-            continue
-        rows.append((F, -g))
-    big = sorted(mg / F for F, mg in rows if abs(F) > 1e-2 * fscale)
-    if len(big) < 3:
-        return None
-    rho = big[len(big) // 2]
-    if any(abs(mg - rho * F) > 1e-6 * fscale + 2e-5 * abs(rho - 1.0) * fscale for F, mg in rows):
-        return None
-    return "known" if abs(rho - 1.0) <= 100.0 * vc else "cancel"
+def opes_shift_ratio(case):
+    """OPES kernels are truncated and shifted, G(r) = h (exp(-r^2/2) - vc), vc = exp(-rc^2/2), r < rc, but the code (as PLUMED
+    does) accumulates -G(r) r/sigma as their derivative instead of -h exp(-r^2/2) r/sigma.  For a one-variable bias the applied
+    force and the energy gradient then differ by one common factor on every coordinate,
+        rho = sum_k h_k e_k d_k/s_k  /  sum_k h_k (e_k - vc) d_k/s_k,   d_k = (x - c_k)/s_k, e_k = exp(-d_k^2/2),
+    computed here from the kernels in the state written right after the sweep.  Returns the list of candidate rho (periodic
+    image conventions), or [] when the state is not available."""
+    st = case.get("_state") or ""
+    m = re.search(r"kernel_cutoff\s+(\S+)", st)
+    mx = re.search(r"colvar \{\s*name \S+\s*x\s+(\S+)", st)
+    hills = re.findall(r"\{ \d+ (\S+) (\S+) (\S+) \}", st)
+    if not (m and mx and hills):
+        return []
+    rc = float(m.group(1))
+    x = float(mx.group(1))
+    vc = math.exp(-0.5 * rc * rc)
+    out = []
+    per = case["cv"].get("period")
+    for wrap in ([False, True] if per else [False]):
+        A = B = 0.0
+        for cs, ss, hs in hills:
+            ck, sk, hk = float(cs), float(ss), float(hs)
+            dx = x - ck
+            if wrap:
+                dx -= per * math.floor(dx / per + 0.5)
+            d = dx / sk
+            if d * d >= rc * rc:
+                continue
+            e = math.exp(-0.5 * d * d)
+            A += hk * e * d / sk
+            B += hk * (e - vc) * d / sk
+        if B != 0.0:
+            out.append(A / B)
+    return out
 
 
 def check_sweep(c, case, ev, files):
@@ -193,6 +197,7 @@ def check_sweep(c, case, ev, files):
     for comp in case["cv"]["comps"]:
         pass
     n_ok = n_inc = 0
+    shift_rows = 0
     worst = 0.0
     for row in ev["d"]:
         k, d = row[0], row[1]
@@ -213,15 +218,16 @@ def check_sweep(c, case, ev, files):
         dev = abs(F + g)
         worst = max(worst, dev / fscale)
         if dev > tol and case["bias"] == "opes":
-            verdict = opes_shift_class(case, ev, f0, fscale)
-            if verdict == "known":
-                c.violation("opes_kernel_shift_not_differentiated:" + case["ctype"],
-                            "atom %d coord %d: F=%.12g -dE/dx=%.12g; every coordinate shows the same ratio, within 100 x the kernel "
-                            "value at the cutoff" % (k + 1, d, F, -g), files, payload={"bias": case.get("bias_text"), "cv": case["cv"]["text"]})
-                return n_ok, n_inc
-            if verdict == "cancel":
-                c.inconc("opes low-barrier case with cancelling kernel forces: " + key_cfg)
-                return n_ok, n_inc + 1
+            # explained by the shifted-kernel derivative (known finding) iff -dE/dx = rho * F with the rho predicted from the kernels
+            for rho in opes_shift_ratio(case):
+                if abs(rho * F + g) <= tol + 1e-3 * abs(rho - 1.0) * abs(F):
+                    shift_rows += 1
+                    break
+            else:
+                shift_rows = -10 ** 9
+            if shift_rows > 0:
+                n_ok += 1
+                continue
         if dev > tol:
             # force vs -dE/dx disagree
             kind = "missing_force" if F == 0.0 else ("unjustified_force" if abs(g) <= tol else "wrong_force")
@@ -230,6 +236,12 @@ def check_sweep(c, case, ev, files):
                         files, payload={"bias": case.get("bias_text"), "cv": case["cv"]["text"]})
             return n_ok, n_inc
         n_ok += 1
+    if shift_rows > 0:
+        rh = opes_shift_ratio(case)
+        c.violation("opes_kernel_shift_not_differentiated:" + case["ctype"],
+                    "%d coordinates: -dE/dx = rho * F with rho in %s as predicted from the kernels in the state (truncated, shifted "
+                    "kernels whose shift multiplies the slope); all other coordinates agree exactly" % (shift_rows, ["%.9g" % r for r in rh]),
+                    files, payload={"bias": case.get("bias_text"), "cv": case["cv"]["text"]})
     # atoms outside every group: exactly zero force, energy exactly insensitive
     fitatoms = set()
     for comp in case["cv"]["comps"]:
@@ -328,6 +340,8 @@ def run(tier, replay):
                 c.inconc("run failed %s/%s/%s sig=%s: %s" % (case["ctype"], case["fit"], case["bias"], r["sig"], r["err"][-300:]))
             continue
         case["_errs"] = [e.get("errs") for e in ev if e.get("errs")]
+        st = [e for e in ev if e.get("ev") == "savestr"]
+        case["_state"] = st[0].get("state", "") if st else ""
         n_ok, n_inc = check_sweep(c, case, sw[0], [sp])
         conclusive_coords += n_ok
         c.bump("coordinates_conclusive", n_ok)
